@@ -695,6 +695,12 @@ def check_pruning(rep, prog):
                 if len(objs) == 2 and objs[0] != objs[1]:
                     return 'tops'
                 return 'tops-same-frontier'
+            # the tentative distance plus another distance (`combine(c, d_u)`, `c + d_u`): at least c, in general more
+            if (s.k == 'CXXOperatorCallExpr' and s.op == '()' and len(s.c) == 4) or (s.k == 'BinaryOperator' and s.op == '+' and len(s.c) == 2):
+                ops_ = s.c[2:4] if s.k == 'CXXOperatorCallExpr' else s.c
+                qs_ = [quantities(o_) for o_ in ops_]
+                if 'c' in qs_ and all(q_ in ('c', 'd_u') for q_ in qs_):
+                    return 'c-plus'
             # a local defined once (e.g. const lower_bound = combine(top_f, top_b)) stands for its definition
             if v is not None and prog.vars[v].get('kind') == 'local' and qdepth[0] < 3:
                 d = ex.unique_def(fn, v)
@@ -841,6 +847,26 @@ def check_pruning(rep, prog):
                         direct = True
                 if direct and ('lt', 'c', 'limit') in ex.f_atoms(pc):
                     implies_not_less(c, 'c', 'limit', 'a neighbour is not inserted only when its tentative distance is not less than the weight limit')
+                inflated = False
+                for (c_, _pol) in ex.ast_conditions(c):
+                    f_ = ex.formula(c_, lambda leaf: atomize(leaf) or ex.f_atom(('opaque', leaf.i)))
+                    if f_ is not None and ('lt', 'c-plus', 'limit') in ex.f_atoms(f_):
+                        inflated = True
+                if inflated and not direct:
+                    lt_ = ('lt', 'c-plus', 'limit')
+                    atoms_ = ex.f_atoms(pc)
+                    rest_ = [x for x in atoms_ if x != lt_]
+                    taken = False
+                    for vals in itertools.product((False, True), repeat=len(rest_)):
+                        e_ = dict(zip(rest_, vals))
+                        e_[lt_] = False      # c + d_u >= limit, which happens with c < limit
+                        if ex.f_eval(pc, e_):
+                            taken = True
+                    what_ = 'a neighbour is not inserted only when its tentative distance is not less than the weight limit'
+                    if taken:
+                        rep.violation('R02i', c, fn, what_, 'the insertion is skipped when the tentative distance PLUS another distance reaches the limit (`%s`): labels with '
+                                      'c < limit that lie on a lighter odd cycle are never inserted (and the meeting test for them is skipped), so a heavier cycle is '
+                                      'returned' % c.enclosing('IfStmt').cond.text(70), key='R02i|%s|c-limit' % fn.g)
         # (4) best meeting point
         for d in main.body.walk():
             if d.k in ('BinaryOperator',) and d.op == '=' and ex.var_of(d.c[0]) is not None and names.get(ex.var_of(d.c[0])) == 'best_path':
